@@ -84,6 +84,13 @@ def numpy_model(rng, rounds=40):
             ("abs", lambda: symnp.abs(sa), lambda: np.abs(a)),
             ("neg", lambda: -sa, lambda: -a),
             ("div_scalar", lambda: sa / 4, lambda: a / 4),
+            ("max.where", lambda: symnp.max(sa, initial=-1, where=mask), lambda: np.max(a, initial=-1, where=mask)),
+            ("min.where", lambda: symnp.min(sa, initial=3, where=symnp.logical_not(mask)), lambda: np.min(a, initial=3, where=np.logical_not(mask))),
+            ("round0", lambda: symnp.round(sa), lambda: np.round(a)),
+            ("round1", lambda: symnp.round(sa * 3, 1), lambda: np.round(a * 3, 1)),
+            ("round.method", lambda: (sa / 4).round(1), lambda: (a / 4).round(1)),
+            ("var~", lambda: symnp.var(sa), lambda: np.var(a)),
+            ("var.axis1~", lambda: symnp.var(symnp.vstack([sa, sb]), 1), lambda: np.var(np.vstack([a, b]), 1)),
         ]
 
         def copyto():
@@ -116,7 +123,10 @@ def numpy_model(rng, rounds=40):
         for name, f, g in tests:
             cases += 1
             try:
-                ok = _same(f(), g())
+                if name.endswith("~"):      # the exact result against numpy's rounded one
+                    ok = bool(np.allclose(np.asarray(_to_float(f()), dtype=float), np.asarray(g(), dtype=float), rtol=1e-12, atol=1e-12))
+                else:
+                    ok = _same(f(), g())
             except Exception as e:
                 ok = False
                 name += f" ({type(e).__name__}: {e})"
@@ -204,8 +214,21 @@ def guarded_model(rng, rounds=25):
             t[writable, 2] = scratch[writable]
             return t
 
+        def store_2d():
+            t = symnp.array(np.vstack([a, b]))
+            m2 = np.empty((2, n), dtype=object)
+            m2[0], m2[1] = smask, symnp.logical_not(smask)
+            t[m2.view(symnp.VArr)] = 7
+            return t
+
+        def store_2d_np():
+            t = np.vstack([a, b]).copy()
+            t[np.vstack([mask, ~mask])] = 7
+            return t
+
         sa, sb = symnp.array(a), symnp.array(b)
         tests = [
+            ("g.store_2d_mask", store_2d, store_2d_np),
             ("g.read", lambda: sa[smask], lambda: a[mask]),
             ("g.store_scalar", store_scalar, store_scalar_np),
             ("g.store_selection", store_sel, store_sel_np),
@@ -220,6 +243,9 @@ def guarded_model(rng, rounds=25):
             ("g.copyto", lambda: (lambda d: (symnp.copyto(d, sb, where=smask), d)[1])(symnp.array(a)),
              lambda: (lambda d: (np.copyto(d, b, where=mask), d)[1])(a.copy())),
             ("g.sum", lambda: symnp.sum(sa * smask), lambda: np.sum(a * mask)),
+            ("g.round_symbolic", lambda: symnp.round(symnp.where(smask, sa, sb) * 3, 1), lambda: np.round(np.where(mask, a, b) * 3, 1)),
+            ("g.round0_symbolic", lambda: symnp.round(symnp.where(smask, sa, sb)), lambda: np.round(np.where(mask, a, b))),
+            ("g.max.where", lambda: symnp.max(sa, initial=-9, where=smask), lambda: np.max(a, initial=-9, where=mask)),
         ]
         if mask.any():
             tests += [("g.max", lambda: symnp.max(sa[smask]), lambda: np.max(a[mask])),
